@@ -1,7 +1,11 @@
 #!/bin/bash
 # usage: tools/mutate.sh <patch-file> <PROPERTY_ID>...   applies patch to /repo, runs checks, reverts
 set -u
+# serialise everything that edits /repo
+exec 9>/tmp/verif-repo.lock
+flock 9
 patch="$1"; shift
+if [ -n "$(git -C /repo status --porcelain)" ]; then echo "/repo is dirty; refusing"; exit 3; fi
 git -C /repo apply "$patch" || { echo "patch failed"; exit 3; }
 for id in "$@"; do
   ( cd /verif && ./check "$id"; echo "exit=$?" )
